@@ -36,6 +36,7 @@ type c06NumaKind struct {
 	Memory    bool
 	CPUBind   bool
 	FullPCPUs bool
+	Spread    bool // REQUIRED SpreadByPCPUs (one CPU per core: the usable CPUs of a NUMA node are half of it)
 	WithMem   bool // additionally request memory (free vector reversed) in the same call: no cross-talk between resources
 	ViaRM     bool // through resourceManager.Allocate on a ledger with a committed occupant
 	CPUSet    bool // (ViaRM) on a real topology of N NUMA nodes x 4 cores x 2 threads whose CPUs are all free while a CPU-share occupant holds NUMA-level amounts: the CPU set built along the per-node shares is judged too
@@ -98,6 +99,9 @@ func TestVerifC06Numa(t *testing.T) {
 		// odd-capped shares to end in split cores: seed C06-5)
 		{Name: "bound-cpu-set-via-Allocate", Divisible: false, Unit: 1000, Step: 1000, CPUBind: true, ViaRM: true, CPUSet: true},
 		{Name: "bound-cpu-set-FullPCPUs-required-via-Allocate", Divisible: false, Unit: 1000, Step: 1000, CPUBind: true, FullPCPUs: true, ViaRM: true, CPUSet: true},
+		// (a required policy makes trimNUMANodeResources lower the available amounts it was handed: they must be the call's
+		// own copy, not the node's recorded NUMA capacity - seed C06-8)
+		{Name: "bound-cpu-set-SpreadByPCPUs-required-via-Allocate", Divisible: false, Unit: 1000, Step: 1000, CPUBind: true, Spread: true, ViaRM: true, CPUSet: true},
 	}
 	alphabet := []int64{0, 1, 2, 3, 5, 8}
 	smt := c06NewLayout(1, 1, 2, 2, false).topology() // only CPUsPerCore()==2 is read from it by splitQuantity
@@ -194,23 +198,40 @@ func TestVerifC06Numa(t *testing.T) {
 							opts.requiredCPUBindPolicy = true
 							opts.cpuBindPolicy = schedulingconfig.CPUBindPolicyFullPCPUs
 						}
+						if kind.Spread {
+							opts.requiredCPUBindPolicy = true
+							opts.cpuBindPolicy = schedulingconfig.CPUBindPolicySpreadByPCPUs
+						}
 					}
 					var got []NUMANodeResource
 					var reasons []string
 					var ps string
 					var gotSet *cpuset.CPUSet
 					var lay *c06Layout
+					mk0 := func() c06NumaCase { return c06NumaCase{Kind: kind.Name, Nodes: N, Hint: hint, Free: free, Request: req} }
 					if kind.CPUSet {
 						lay = c06NewLayout(1, N, 4, 2, false)
 						totals := make([]NUMANodeResource, N)
 						occ := &PodAllocation{UID: types.UID("occ"), Name: "occ", Namespace: "default"}
 						for k := 0; k < N; k++ {
 							totals[k] = NUMANodeResource{Node: k, Resources: corev1.ResourceList{resName: c06Quantity(8*kind.Unit, false)}}
-							occ.NUMANodeResources = append(occ.NUMANodeResources, NUMANodeResource{Node: k, Resources: corev1.ResourceList{resName: c06Quantity(8*kind.Unit-free[k], false)}})
+							if 8*kind.Unit-free[k] > 0 { // (a NUMA node nobody holds anything of has no ledger entry at all)
+								occ.NUMANodeResources = append(occ.NUMANodeResources, NUMANodeResource{Node: k, Resources: corev1.ResourceList{resName: c06Quantity(8*kind.Unit-free[k], false)}})
+							}
 						}
 						rm, tom := c06NewManager(lay.topology(), 1, 0, totals)
-						rm.Update(c06Node, occ)
+						if len(occ.NUMANodeResources) > 0 {
+							rm.Update(c06Node, occ)
+						}
 						opts.topologyOptions = tom.GetTopologyOptions(c06Node)
+						defer func() {
+							// the call is a query as far as the node's recorded NUMA capacity is concerned
+							for _, r := range tom.GetTopologyOptions(c06Node).NUMANodeResources {
+								if q := r.Resources[resName]; c06Milli(q) != 8*kind.Unit {
+									res.Violate(mc.Violation{Key: "C06|numa-split|" + kind.Name + "|allocate-rewrites-numa-capacity", What: fmt.Sprintf("%s: after Allocate (hint %v free %v request %d) the node's recorded capacity of NUMA node %d is %d milli, it was %d", kind.Name, hint, free, req, r.Node, c06Milli(q), 8*kind.Unit), Replay: mk0()})
+								}
+							}
+						}()
 						ps = mc.Guard(func() {
 							alloc, st := rm.Allocate(c06NodeObj(), c06PodObj("new"), opts)
 							if st.IsSuccess() && alloc != nil {
